@@ -75,7 +75,9 @@ func (m *Machine) isHarnessFn(fn *ssa.Function) bool {
 	}
 	v := false
 	if f.Pos().IsValid() {
-		v = strings.Contains(m.prog.Fset.Position(f.Pos()).Filename, "zz_verif_")
+		fname := m.prog.Fset.Position(f.Pos()).Filename
+		// (the litmus programs of the engine self-test count as program code)
+		v = strings.Contains(fname, "zz_verif_") && !strings.Contains(fname, "zz_verif_litmus")
 	}
 	if m.harnessFnCache == nil {
 		m.harnessFnCache = map[*ssa.Function]bool{}
